@@ -231,7 +231,7 @@ def enum_cases(tier, seed):
                 yield {"kind": "groups", "seq": seq, "g1": [a], "g2": [b]}
 
 
-def parts(tier):
+def _parts(tier):
     return [
         Part("enum-small-groups", "enum", check=check, cases=enum_cases, exhaustive=False, shards={"quick": 8, "thorough": 16}),
         Part("hyp-groupings", "hyp", check=check, strategy=lambda t: hyp_case(60 if t == "quick" else 150),
@@ -240,3 +240,13 @@ def parts(tier):
              strategy=lambda t: gens.neighbour_compositions().flatmap(lambda comps: st.tuples(*[gens.by_composition(*c) for c in comps]).map(lambda ss: {"comps": comps, "seqs": list(ss)})),
              examples={"quick": 64, "thorough": 1200}, shards={"quick": 16, "thorough": 16}),
     ]
+
+
+def parts(tier):
+    ps = _parts(tier)
+    from .. import fuzz
+    if tier == "thorough" and fuzz.available():
+        # the same structured cases, generated coverage-guided: libFuzzer bytes drive the Hypothesis strategy (fuzz_one_input)
+        ps.append(Part("atheris-guided", "custom", check=[p for p in ps if p.name == "hyp-groupings"][0].check, shards={"quick": 1, "thorough": 8},
+                       run=lambda ctx, t, seed, idx, n: fuzz.hyp_campaign(ctx, "c06", "hyp-groupings", seed, idx, runs=30000)))
+    return ps
